@@ -74,6 +74,7 @@ type G struct {
 	node    string
 	prio    int
 	foreign bool
+	done    bool
 }
 
 type event struct {
@@ -383,10 +384,20 @@ func Note(entry string) {
 
 func (s *Sched) describeBlocked() string {
 	var parts []string
+	waiting := map[*G]bool{}
 	for _, ws := range s.waiters {
 		for _, w := range ws {
 			parts = append(parts, w.id+"@"+w.site)
+			waiting[w] = true
 		}
+	}
+	// tasks that are neither parked nor lock-waiting are blocked inside a real
+	// channel / WaitGroup / timer operation: report where they were last seen
+	for _, g := range s.byGoid {
+		if g.foreign || waiting[g] || s.killed[g.node] || g.done {
+			continue
+		}
+		parts = append(parts, g.id+"@blocked-after:"+g.site)
 	}
 	slices.Sort(parts)
 	return strings.Join(parts, " ")
